@@ -95,15 +95,84 @@ func (p *Program) sortedFuncs(m map[*ssa.Function][]*atomicOp) []*ssa.Function {
 	return out
 }
 
-// returnsOf lists the Return instructions of fn.
+// returnsOf lists the Return instructions of fn. The return of the recover block that go/ssa adds to
+// every function with a defer is left out when none of the deferred calls can call recover(): that
+// block is then unreachable.
 func returnsOf(fn *ssa.Function) []*ssa.Return {
 	var out []*ssa.Return
+	dead := fn.Recover != nil && !mayRecover(fn)
 	instrsOf(fn, func(in ssa.Instruction) {
 		if r, ok := in.(*ssa.Return); ok {
+			if dead && r.Block() == fn.Recover {
+				return
+			}
 			out = append(out, r)
 		}
 	})
 	return out
+}
+
+var mayRecoverCache = map[*ssa.Function]bool{}
+
+// mayRecover: some deferred call of fn may call the builtin recover (directly, or in a statically
+// resolved callee up to depth 3; an unresolved deferred call counts as "may").
+func mayRecover(fn *ssa.Function) bool {
+	if v, ok := mayRecoverCache[fn]; ok {
+		return v
+	}
+	var calls func(g *ssa.Function, depth int) bool
+	calls = func(g *ssa.Function, depth int) bool {
+		if g == nil {
+			return true
+		}
+		if g.Blocks == nil {
+			return false // external functions (sync, atomic, ...) recover on their own behalf only
+		}
+		if depth == 0 {
+			return true
+		}
+		res := false
+		instrsOf(g, func(in ssa.Instruction) {
+			ci, ok := in.(ssa.CallInstruction)
+			if !ok || res {
+				return
+			}
+			if b, isB := ci.Common().Value.(*ssa.Builtin); isB {
+				if b.Name() == "recover" {
+					res = true
+				}
+				return
+			}
+			if h := ci.Common().StaticCallee(); h != nil && h.Blocks != nil && h.Pkg == g.Pkg {
+				if calls(h, depth-1) {
+					res = true
+				}
+			}
+		})
+		return res
+	}
+	res := false
+	instrsOf(fn, func(in ssa.Instruction) {
+		d, ok := in.(*ssa.Defer)
+		if !ok || res {
+			return
+		}
+		if d.Call.IsInvoke() {
+			res = true
+			return
+		}
+		g := d.Call.StaticCallee()
+		if g == nil {
+			if mc, isMC := d.Call.Value.(*ssa.MakeClosure); isMC {
+				g, _ = mc.Fn.(*ssa.Function)
+			}
+		}
+		if calls(g, 3) {
+			res = true
+		}
+	})
+	mayRecoverCache[fn] = res
+	return res
 }
 
 // traceThroughCalls resolves v through single-result in-module static calls to the values the
@@ -344,6 +413,27 @@ func (c *Ctx) checkSetOnlyAtConstruction(rule, short, typ string, fields ...stri
 				al, isAl := root.(*ssa.Alloc)
 				if isAl && al.Parent() == st.Parent() {
 					continue
+				}
+				// the struct came fresh out of an in-module constructor helper and is still being set up
+				if call, isCall := root.(*ssa.Call); isCall {
+					if g := staticCallee(call); g != nil && c.inModule(g) && g.Blocks != nil {
+						fresh, nRet := true, 0
+						for _, r := range returnsOf(g) {
+							if len(r.Results) == 0 {
+								fresh = false
+								break
+							}
+							for _, va := range resultValues(r, 0) {
+								nRet++
+								if a2, ok := canon(va.Val).(*ssa.Alloc); !ok || a2.Parent() != g {
+									fresh = false
+								}
+							}
+						}
+						if fresh && nRet > 0 {
+							continue
+						}
+					}
 				}
 				okAll = false
 				c.bad(rule, key, st.Pos(), "the field "+typ+"."+name+" is assigned after construction ("+c.fnKey(st.Parent())+"): every method that iterates or delegates to it changes behaviour for all later calls - with an emptied list they silently do nothing and report success", c.describe(st))
